@@ -95,6 +95,8 @@ def success_case(asm, acc, case):
             args += ['--hex-offset', case['hex']]
         if case['defs']:
             args.append('--include-definitions')
+        if case['idx'] % 3 == 1:
+            args.insert(1, rng.choice(['-v', '--verbose']))
         # stale files that must be replaced: junk, or - for the binary - an older build that starts with / equals / is a prefix of
         # the new program (an "unchanged, skip the write" shortcut must still leave exactly the new program)
         stale_kind = ['junk', 'longer', 'same', 'shorter', 'junk-long'][case['idx'] % 5]
